@@ -69,7 +69,7 @@ def case(boundary, fields, mem=102400, k=0, framing='cl', first='POST', chunks=N
 
 
 # ---------------------------------------------------------------- dev-only line coverage of the anchored code
-# VERIF_COVERAGE=1 ./check Cxx --no-coq   writes evidence/coverage_Cxx.json: executable lines of the anchored
+# VERIF_COVERAGE=1 ./check Cxx --no-coq   writes evidence/dev/coverage_Cxx.json: executable lines of the anchored
 # functions reached / not reached by the cases of the run (AUDIT_BRIEF.md, step 1).
 COV_TARGETS = {
     'ombott/request_pkg/multipart.py': ['FieldStorage', 'BytesIOProxy', 'Header'],
@@ -141,7 +141,7 @@ class Coverage:
                     miss.append('%d %s: %s' % (ln, q, src[ln - 1].strip()))
             out[os.path.relpath(path, self.repo)] = miss
         root = os.path.normpath(os.path.join(os.path.dirname(os.path.abspath(__file__)), '..', '..'))
-        with open(os.path.join(root, 'evidence', 'coverage_%s.json' % self.pid), 'w') as f:
+        with open(os.path.join(root, 'evidence', 'dev', 'coverage_%s.json' % self.pid), 'w') as f:
             json.dump(dict(property=self.pid, reached=hit, total=tot, unreached=out), f, indent=1)
         print('coverage %s: %d/%d executable lines of the anchored functions reached' % (self.pid, hit, tot),
               file=self._sys.stderr)
